@@ -37,7 +37,9 @@ pub enum Ev {
     Mmio { region: u32, write: bool, off: u64, width: u8, val: u64 },
     // verif hooks in /repo
     Store { what: u8, index: u32, val: u64 },
+    StoreDesc { index: u32, addr: u64, len: u32, flags: u16, next: u16 },
     Fence,
+    Spin(u8),
 }
 
 pub fn dir_code(d: BufferDirection) -> u8 {
